@@ -21,6 +21,7 @@ regenerated table) and the block ends at or before 65536 (`pc as u16`).
 import EtkVerif.Annot.Lemmas
 import EtkVerif.Annot.Total
 import EtkVerif.Sym.Flat
+import EtkVerif.Evm.Cancun
 namespace EtkVerif.C06
 open Ops Annot Evm
 
@@ -59,5 +60,51 @@ theorem C06_walk (t : Tree) (h : t.wf = true) (rest : List Sym) :
 example : ∃ a, annotate Gen.cancun ⟨0, [⟨0x60, [1]⟩, ⟨0x60, [2]⟩, ⟨0x01, []⟩, ⟨0x90, []⟩, ⟨0x56, []⟩]⟩ = .ok a ∧
     a.inputs = 1 := by
   refine ⟨_, rfl, ?_⟩; decide
+
+/-! ### Scope: etk's Cancun table vs. real Cancun
+
+`execBlock` follows the opcode set of etk's own Cancun table, which lacks the real
+Cancun opcodes 0x49 BLOBHASH, 0x4a BLOBBASEFEE, 0x5c TLOAD, 0x5d TSTORE
+(`Evm.missingOps`); etk and `execBlock` treat them as invalid = halting.  Against the
+REAL Cancun semantics `execBlockC` (`Evm/Cancun.lean`) the theorems above hold for
+blocks that contain none of the four opcodes, and fail otherwise. -/
+
+theorem C06_sound_cancun (t : OpTable) (b : Blocks.Block) (a : Annotated)
+    (h : annotate t b = .ok a) (hs : SizesOK t b.ops) (hpc : b.offset + b.byteLen ≤ 65536)
+    (hm : ∀ i ∈ b.ops, i.op ∉ Evm.missingOps)
+    (E : Env) (ω : Nat → Word) (entry : List Word) (hd : a.inputs ≤ entry.length) :
+    ∃ o, execBlockC E ω b.ops b.offset 0 entry = some o ∧ ExitAgrees E ω entry a o := by
+  rw [execBlockC_eq E ω b.ops b.offset 0 entry hm]
+  exact C06_sound t b a h hs hpc E ω entry hd
+
+theorem C06_inputs_cancun (t : OpTable) (b : Blocks.Block) (a : Annotated)
+    (h : annotate t b = .ok a) (hm : ∀ i ∈ b.ops, i.op ∉ Evm.missingOps)
+    (E : Env) (ω : Nat → Word) (entry : List Word)
+    (hd : entry.length < a.inputs) :
+    execBlockC E ω b.ops b.offset 0 entry = none := by
+  rw [execBlockC_eq E ω b.ops b.offset 0 entry hm]
+  exact C06_inputs t b a h E ω entry hd
+
+/-- Without `hm`, `C06_sound_cancun` is false.  The block `push1 0x00; tload` (bytes
+60 00 5c) at offset 0 satisfies every other hypothesis of `C06_sound` (for the regenerated
+table `Gen.cancun`); the annotator declares 0 inputs and exit `terminate` (etk's table has
+no 0x5c, so the block "ends in an invalid instruction"), and `execBlock` halts accordingly;
+but the real Cancun machine, for every environment and oracle, runs both instructions and
+falls through to offset 3 with one word (the value TLOAD read) on the stack — which
+`ExitAgrees` does not relate to the annotation. -/
+theorem C06_cancun_counterexample (E : Env) (ω : Nat → Word) :
+    let b : Blocks.Block := ⟨0, [⟨0x60, [0x00]⟩, ⟨0x5c, []⟩]⟩
+    ∃ a o, annotate Gen.cancun b = .ok a ∧ SizesOK Gen.cancun b.ops ∧ b.offset + b.byteLen ≤ 65536 ∧
+      a.inputs = 0 ∧ a.exit = .terminate ∧
+      execBlock E ω b.ops b.offset 0 [] = some .halt ∧
+      execBlockC E ω b.ops b.offset 0 [] = some o ∧ o = .fall 3 [ω 1] ∧
+      ¬ ExitAgrees E ω [] a o := by
+  intro b
+  refine ⟨_, .fall 3 [ω 1], rfl, ?_, by decide, rfl, rfl, rfl, rfl, rfl, ?_⟩
+  · intro i hi
+    simp only [b, List.mem_cons, List.not_mem_nil, or_false] at hi
+    rcases hi with rfl | rfl <;> decide
+  · intro h
+    cases h.1
 
 end EtkVerif.C06
